@@ -421,14 +421,11 @@ def parse_youtube_url(url, fix_common_mistakes=True):
     else:
         path = path.rstrip("/")
         if path.count("/") == 1:
-            name = path.lstrip("/")
+            # NOTE: a reserved path behind an "@" is no channel name either,
+            # as under "/c/": its url would be the reserved page
+            name = path.lstrip("/").lstrip("@")
 
-            if name in YOUTUBE_CHANNEL_NAME_BLACKLIST:
-                return
-
-            name = name.lstrip("@")
-
-            if not name:
+            if not name or name in YOUTUBE_CHANNEL_NAME_BLACKLIST:
                 return
 
             return YoutubeChannel(id=None, name=name)
